@@ -11,7 +11,7 @@ def classify(pattern):
     if pattern.endswith("/") and "/" not in pattern[:-1]:
         return "dir"
     if "/" in pattern:
-        return "anchored"  # outside the quantifier; never generated
+        return "anchored"  # a separator at the beginning or in the middle ties the pattern to the root folder
     if any(ch in pattern for ch in "*?["):
         return "glob"
     return "name"
@@ -36,7 +36,19 @@ def match(patterns, relpath, is_dir=None):
     for pat in patterns:
         k = classify(pat)
         if k == "anchored":
-            raise ValueError("anchored pattern not supported by the reference matcher: " + pat)
+            if "**" in pat:
+                raise ValueError("'**' is not supported by the reference matcher: " + pat)
+            dir_only = pat.endswith("/")
+            pc = [c for c in pat.strip("/").split("/")]
+            if len(comps) >= len(pc) and all(fnmatch.fnmatchcase(c, q) for c, q in zip(comps, pc)):
+                if len(comps) > len(pc):
+                    # beneath the matched entry; a file cannot have anything beneath it, so that entry is a folder
+                    return True
+                if not dir_only or is_dir is True:
+                    return True
+                if is_dir is None:
+                    dontcare = True
+            continue
         if k == "dir":
             name = pat[:-1]
             if any(fnmatch.fnmatchcase(c, name) for c in comps[:-1]):
